@@ -8,7 +8,20 @@ import HcipyVerif.Model.Coronagraph
 * `apply [re] [im]` → `ok [re'] [im']` (perfect coronagraph on both real components)
 * `lyot Fre Fim Bre Bim [mre] [mim] SRE SIM [Ere] [Eim]` (matrices `[row];[row]`, stop `-` `-` for none)
 * `occulted Fre Fim Bre Bim [mre] [mim] [Ere] [Eim]`
+* `lyotb …`, `occultedb …` → the same arguments, the `backward` methods (`lyotBackward`, `occultedBackward`)
+* `lyotadj Fre Fim Bre Bim [mre] [mim] SRE SIM [xre] [xim] [yre] [yim]` → `ok adj=max|B−Fᴴ| lhs=⟨y,forward x⟩ rhs=⟨backward y,x⟩`
 * `levels NY NX DX DY Q S W` → level bookkeeping of the multi-scale coronagraphs
+* `pmat T Tinv [c] [w] MU` → stores the real object's `transformation` (`n` rows `[..];[..]`),
+  `transformation_inverse` (`k` rows), `coeffs`, grid weights; answers the defects of the theorem
+  hypotheses: `ok n=N k=K leftinv=max|T⁺T−I| adj=max|T⁺−μTᵀW|`
+* `pmodes ORDER [a] [x] [y]` → `ok nulls=max|perfectMat(mode)| scale=max|mode|` (hypothesis `NullsModes`)
+* `msalg N D SRE SIM ERE EIM L (RAWRE RAWIM WINRE WINIM FRE FIM BRE BIM NR (RRE RIM)*NR)*L` → the
+  multi-scale algebra at Gaussian rationals: `ok OUTRE OUTIM M0RE M0IM M1RE M1IM …` (`msForward`, `msMasks`)
+* `msalgb …` → the same arguments, `msBackward` (conjugated stop first, conjugated masks)
+* `msteleb N D MRE MIM FRE FIM BRE BIM L ([S] [wre] [wim])*L YRE YIM` → `ok nested= equal= [msBackward exactLevels] [idealForward conj(m)]`
+* `mstele N D [m] F B L ([S] [w])*L [E]` → `ok nested=0|1 equal=0|1 [msForward exactLevels] [idealForward]`
+* `papply [E]` → `ok [perfectMat T T⁺ c E] pin=powerW pout=powerW`
+* `pmatrix` → `ok row;row;…` the matrix `perfectMatrix T T⁺ c` (`get_transformation_matrix_forward()`)
 -/
 namespace HcipyVerif.Driver.C09
 open HcipyVerif.Proto HcipyVerif.Coronagraph
@@ -16,6 +29,12 @@ open HcipyVerif.Proto HcipyVerif.Coronagraph
 structure St where
   n : Nat := 0
   basis : List (Vec Rat n) := []
+  pn : Nat := 0
+  pk : Nat := 0
+  pT : Vector (Vec Rat pk) pn := Vector.ofFn fun _ => Vector.ofFn fun _ => 0
+  pTinv : Vector (Vec Rat pn) pk := Vector.ofFn fun _ => Vector.ofFn fun _ => 0
+  pc : Vec Rat pk := Vector.ofFn fun _ => 0
+  pw : Vec Rat pn := Vector.ofFn fun _ => 0
 
 def ofList (l : List Rat) (n : Nat) : Vec Rat n :=
   let a := l.toArray
@@ -38,6 +57,15 @@ def cmat (re im : List (List Rat)) (m n : Nat) : Vector (Vec CRat n) m :=
   let rows : Array (Vec CRat n) := ((re.zip im).map fun (r, i) => cvec r i n).toArray
   Vector.ofFn fun k => rows.getD k.1 (Vector.replicate n 0)
 
+/-- a real matrix with `m` rows of length `n` -/
+def rmat (ll : List (List Rat)) (m n : Nat) : Vector (Vec Rat n) m :=
+  let rows : Array (Vec Rat n) := (ll.map fun r => ofList r n).toArray
+  Vector.ofFn fun k => rows.getD k.1 (Vector.replicate n 0)
+
+def rabs (q : Rat) : Rat := if q < 0 then -q else q
+
+def maxAbs (l : List Rat) : Rat := l.foldl (fun acc q => max acc (rabs q)) 0
+
 def rect (ll : List (List Rat)) (n : Nat) : Bool := ll.all (·.length == n)
 
 def showPad : Pad → String
@@ -46,7 +74,7 @@ def showPad : Pad → String
 
 def showPair (p : Rat × Rat) : String := s!"{showRat p.1},{showRat p.2}"
 
-def lyotOp (occ : Bool) (fre fim bre bim mre mim sre sim ere eim : String) : String :=
+def lyotOp (occ back : Bool) (fre fim bre bim mre mim sre sim ere eim : String) : String :=
   match parseRatLists? fre, parseRatLists? fim, parseRatLists? bre, parseRatLists? bim,
         parseRatList? mre, parseRatList? mim, parseRatList? ere, parseRatList? eim with
   | some fre, some fim, some bre, some bim, some mre, some mim, some ere, some eim =>
@@ -59,14 +87,151 @@ def lyotOp (occ : Bool) (fre fim bre bim mre mim sre sim ere eim : String) : Str
     let B := cmat bre bim n m
     let mask := cvec mre mim m
     let E := cvec ere eim n
-    if occ then "ok " ++ showC (occultedForward F B mask E) else
-    if sre == "-" && sim == "-" then "ok " ++ showC (lyotForward F B mask none E) else
+    let run (stop : Option (Vec CRat n)) : String :=
+      if back then "ok " ++ showC (lyotBackward CRat.conj F B mask stop E) else "ok " ++ showC (lyotForward F B mask stop E)
+    if occ then "ok " ++ showC (if back then occultedBackward CRat.conj F B mask E else occultedForward F B mask E) else
+    if sre == "-" && sim == "-" then run none else
     match parseRatList? sre, parseRatList? sim with
     | some sre, some sim =>
-      if sre.length != n || sim.length != n then "bad-op"
-      else "ok " ++ showC (lyotForward F B mask (some (cvec sre sim n)) E)
+      if sre.length != n || sim.length != n then "bad-op" else run (some (cvec sre sim n))
     | _, _ => "bad-op"
   | _, _, _, _, _, _, _, _ => "bad-op"
+
+def showC1 (a : CRat) : String := showRat a.re ++ "," ++ showRat a.im
+
+/-- `lyotadj`: the hypothesis (`B = Fᴴ`) and both sides of `lyot_backward_adjoint`. -/
+def lyotAdj (fre fim bre bim mre mim sre sim xre xim yre yim : String) : String :=
+  match parseRatLists? fre, parseRatLists? fim, parseRatLists? bre, parseRatLists? bim,
+        parseRatList? mre, parseRatList? mim, parseRatList? xre, parseRatList? xim, parseRatList? yre, parseRatList? yim with
+  | some fre, some fim, some bre, some bim, some mre, some mim, some xre, some xim, some yre, some yim =>
+    let n := xre.length
+    let m := mre.length
+    if xim.length != n || yre.length != n || yim.length != n || mim.length != m || fre.length != m || fim.length != m ||
+       bre.length != n || bim.length != n || !rect fre n || !rect fim n || !rect bre m || !rect bim m
+    then "bad-op" else
+    let F := cmat fre fim m n
+    let B := cmat bre bim n m
+    let mask := cvec mre mim m
+    let x := cvec xre xim n
+    let y := cvec yre yim n
+    let stop : Option (Option (Vec CRat n)) :=
+      if sre == "-" && sim == "-" then some none else
+      match parseRatList? sre, parseRatList? sim with
+      | some a, some b => if a.length != n || b.length != n then none else some (some (cvec a b n))
+      | _, _ => none
+    match stop with
+    | none => "bad-op"
+    | some stop =>
+      let defect := maxAbs ((List.finRange n).flatMap fun i => (List.finRange m).flatMap fun k =>
+        let d := propAdjointDefect CRat.conj F B i k
+        [d.re, d.im])
+      let lhs := cdot CRat.conj y (lyotForward F B mask stop x)
+      let rhs := cdot CRat.conj (lyotBackward CRat.conj F B mask stop y) x
+      s!"ok adj={showRat defect} lhs={showC1 lhs} rhs={showC1 rhs}"
+  | _, _, _, _, _, _, _, _, _, _ => "bad-op"
+
+def pairs {α} : List α → List (α × α)
+  | a :: b :: t => (a, b) :: pairs t
+  | _ => []
+
+/-- levels of an `msalg` request -/
+def parseLevels (d n : Nat) : Nat → List String → Option (List (MSLevel CRat d n))
+  | 0, [] => some []
+  | 0, _ => none
+  | l + 1, rre :: rim :: wre :: wim :: fre :: fim :: bre :: bim :: nr :: rest => do
+    let rre ← parseRatList? rre
+    let rim ← parseRatList? rim
+    let wre ← parseRatList? wre
+    let wim ← parseRatList? wim
+    let fre ← parseRatLists? fre
+    let fim ← parseRatLists? fim
+    let bre ← parseRatLists? bre
+    let bim ← parseRatLists? bim
+    let nr ← parseNat? nr
+    if rre.length != d || rim.length != d || wre.length != d || wim.length != d || fre.length != d || fim.length != d ||
+       bre.length != n || bim.length != n || !rect fre n || !rect fim n || !rect bre d || !rect bim d ||
+       rest.length < 2 * nr then none else
+    let (rt, rest') := rest.splitAt (2 * nr)
+    let Rs ← (pairs rt).mapM fun (a, b) => do
+      let a ← parseRatLists? a
+      let b ← parseRatLists? b
+      if a.length != d || b.length != d || !rect a d || !rect b d then none else some (cmat a b d d)
+    let tail ← parseLevels d n l rest'
+    some ({ raw := cvec rre rim d, win := cvec wre wim d, R := Rs, F := cmat fre fim d n, B := cmat bre bim n d } :: tail)
+  | _, _ => none
+
+def parseSpecs (d : Nat) : Nat → List String → Option (List (Vector Bool d × Vec Rat d) × List String)
+  | 0, rest => some ([], rest)
+  | l + 1, s :: w :: rest => do
+    let s ← parseRatList? s
+    let w ← parseRatList? w
+    if s.length != d || w.length != d then none else
+    let sa := s.toArray
+    let (tail, rest') ← parseSpecs d l rest
+    some (((Vector.ofFn fun i : Fin d => sa.getD i.1 0 != 0), ofList w d) :: tail, rest')
+  | _, _ => none
+
+/-- `msalg` / `msalgb`: the multi-scale algebra (`msForward` / `msBackward`) and the masks. -/
+def msAlgOp (back : Bool) : List String → String
+  | n :: d :: sre :: sim :: ere :: eim :: l :: rest =>
+    match parseNat? n, parseNat? d, parseRatList? ere, parseRatList? eim, parseNat? l with
+    | some n, some d, some ere, some eim, some l =>
+      if ere.length != n || eim.length != n then "bad-op" else
+      match parseLevels d n l rest with
+      | none => "bad-op"
+      | some ls =>
+        let E := cvec ere eim n
+        let stop : Option (Option (Vec CRat n)) :=
+          if sre == "-" && sim == "-" then some none else
+          match parseRatList? sre, parseRatList? sim with
+          | some a, some b => if a.length != n || b.length != n then none else some (some (cvec a b n))
+          | _, _ => none
+        match stop with
+        | none => "bad-op"
+        | some stop =>
+          let out := if back then msBackward CRat.conj ls stop E else msForward ls stop E
+          let ms := msMasks ls
+          "ok " ++ showC out ++ String.join (ms.map fun M => " " ++ showC M)
+    | _, _, _, _, _ => "bad-op"
+  | _ => "bad-op"
+
+def parseSpecsC (d : Nat) : Nat → List String → Option (List (Vector Bool d × Vec CRat d) × List String)
+  | 0, rest => some ([], rest)
+  | l + 1, s :: w :: wi :: rest => do
+    let s ← parseRatList? s
+    let w ← parseRatList? w
+    let wi ← parseRatList? wi
+    if s.length != d || w.length != d || wi.length != d then none else
+    let sa := s.toArray
+    let (tail, rest') ← parseSpecsC d l rest
+    some (((Vector.ofFn fun i : Fin d => sa.getD i.1 0 != 0), cvec w wi d) :: tail, rest')
+  | _, _ => none
+
+/-- `msteleb N D MRE MIM FRE FIM BRE BIM L ([S] [wre] [wim])*L YRE YIM`: `multiscale_backward_telescopes` at the
+Gaussian rationals (windows real or complex): hypothesis and both sides. -/
+def msTeleB : List String → String
+  | n :: d :: mre :: mim :: fre :: fim :: bre :: bim :: l :: rest =>
+    match parseNat? n, parseNat? d, parseRatList? mre, parseRatList? mim, parseRatLists? fre, parseRatLists? fim,
+          parseRatLists? bre, parseRatLists? bim, parseNat? l with
+    | some n, some d, some mre, some mim, some fre, some fim, some bre, some bim, some l =>
+      if mre.length != d || mim.length != d || fre.length != d || fim.length != d || bre.length != n || bim.length != n ||
+         !rect fre n || !rect fim n || !rect bre d || !rect bim d then "bad-op" else
+      match parseSpecsC d l rest with
+      | some (sps, [yre, yim]) =>
+        match parseRatList? yre, parseRatList? yim with
+        | some yre, some yim =>
+          if yre.length != n || yim.length != n then "bad-op" else
+          let mv := cvec mre mim d
+          let F := cmat fre fim d n
+          let B := cmat bre bim n d
+          let y := cvec yre yim n
+          let lhs := msBackward CRat.conj (exactLevels mv F B sps) none y
+          let rhs := idealForward (Vector.ofFn fun p => CRat.conj mv[p]) F B y
+          s!"ok nested={showBool (nestedOK (onesVec CRat d) sps)} equal={showBool (toList lhs == toList rhs)} {showC lhs} {showC rhs}"
+        | _, _ => "bad-op"
+      | _ => "bad-op"
+    | _, _, _, _, _, _, _, _, _ => "bad-op"
+  | _ => "bad-op"
 
 def step (st : St) : List String → St × String
   | ["reset"] => ({}, "ok")
@@ -97,10 +262,72 @@ def step (st : St) : List String → St × String
       let i := residual st.basis (ofList im st.n)
       (st, s!"ok {showRatList (toList r)} {showRatList (toList i)} power={showRat (power r + power i)}")
     | _, _ => (st, "bad-op")
+  | ["pmat", t, ti, c, w, mu] =>
+    match parseRatLists? t, parseRatLists? ti, parseRatList? c, parseRatList? w, parseRat? mu with
+    | some t, some ti, some c, some w, some mu =>
+      let n := t.length
+      let k := ti.length
+      if c.length != k || w.length != n || !rect t k || !rect ti n then (st, "bad-op") else
+      let T := rmat t n k
+      let Tinv := rmat ti k n
+      let wv := ofList w n
+      let li := maxAbs ((List.finRange k).flatMap fun j => (List.finRange k).map fun l => leftInvDefect T Tinv j l)
+      let ad := maxAbs ((List.finRange k).flatMap fun j => (List.finRange n).map fun i => adjointDefect T Tinv wv mu j i)
+      ({ st with pn := n, pk := k, pT := T, pTinv := Tinv, pc := ofList c k, pw := wv },
+        s!"ok n={n} k={k} leftinv={showRat li} adj={showRat ad}")
+    | _, _, _, _, _ => (st, "bad-op")
+  | ["pmodes", o, a, x, y] =>
+    match parseNat? o, parseRatList? a, parseRatList? x, parseRatList? y with
+    | some o, some a, some x, some y =>
+      if a.length != st.pn || x.length != st.pn || y.length != st.pn then (st, "bad-op") else
+      let ms := modes (ofList a st.pn) (ofList x st.pn) (ofList y st.pn) o
+      let nulls := maxAbs (ms.flatMap fun m => toList (perfectMat st.pT st.pTinv st.pc m))
+      let scale := maxAbs (ms.flatMap fun m => toList m)
+      (st, s!"ok nulls={showRat nulls} scale={showRat scale}")
+    | _, _, _, _ => (st, "bad-op")
+  | ["papply", e] =>
+    match parseRatList? e with
+    | some e =>
+      if e.length != st.pn then (st, "bad-op") else
+      let E := ofList e st.pn
+      let out := perfectMat st.pT st.pTinv st.pc E
+      (st, s!"ok {showRatList (toList out)} pin={showRat (powerW st.pw E)} pout={showRat (powerW st.pw out)}")
+    | none => (st, "bad-op")
+  | ["pmatrix"] =>
+    let M := perfectMatrix st.pT st.pTinv st.pc
+    (st, "ok " ++ showRatLists ((toList M).map fun r => toList r))
+  | "msalg" :: rest => (st, msAlgOp false rest)
+  | "msalgb" :: rest => (st, msAlgOp true rest)
+  | "msteleb" :: rest => (st, msTeleB rest)
+  | "mstele" :: n :: d :: m :: f :: b :: l :: rest =>
+    match parseNat? n, parseNat? d, parseRatList? m, parseRatLists? f, parseRatLists? b, parseNat? l with
+    | some n, some d, some m, some f, some b, some l =>
+      if m.length != d || f.length != d || b.length != n || !rect f n || !rect b d then (st, "bad-op") else
+      match parseSpecs d l rest with
+      | some (sps, [e]) =>
+        match parseRatList? e with
+        | some e =>
+          if e.length != n then (st, "bad-op") else
+          let mv := ofList m d
+          let F := rmat f d n
+          let B := rmat b n d
+          let E := ofList e n
+          let lhs := msForward (exactLevels mv F B sps) none E
+          let rhs := idealForward mv F B E
+          (st, s!"ok nested={showBool (nestedOK (onesVec Rat d) sps)} equal={showBool (toList lhs == toList rhs)} {showRatList (toList lhs)} {showRatList (toList rhs)}")
+        | none => (st, "bad-op")
+      | _ => (st, "bad-op")
+    | _, _, _, _, _, _ => (st, "bad-op")
   | ["lyot", fre, fim, bre, bim, mre, mim, sre, sim, ere, eim] =>
-    (st, lyotOp false fre fim bre bim mre mim sre sim ere eim)
+    (st, lyotOp false false fre fim bre bim mre mim sre sim ere eim)
+  | ["lyotb", fre, fim, bre, bim, mre, mim, sre, sim, ere, eim] =>
+    (st, lyotOp false true fre fim bre bim mre mim sre sim ere eim)
+  | ["lyotadj", fre, fim, bre, bim, mre, mim, sre, sim, xre, xim, yre, yim] =>
+    (st, lyotAdj fre fim bre bim mre mim sre sim xre xim yre yim)
   | ["occulted", fre, fim, bre, bim, mre, mim, ere, eim] =>
-    (st, lyotOp true fre fim bre bim mre mim "-" "-" ere eim)
+    (st, lyotOp true false fre fim bre bim mre mim "-" "-" ere eim)
+  | ["occultedb", fre, fim, bre, bim, mre, mim, ere, eim] =>
+    (st, lyotOp true true fre fim bre bim mre mim "-" "-" ere eim)
   | ["levels", ny, nx, dx, dy, q, s, w] =>
     match parseNat? ny, parseNat? nx, parseRat? dx, parseRat? dy, parseRat? q, parseRat? s, parseNat? w with
     | some ny, some nx, some dx, some dy, some q, some s, some w =>
@@ -110,7 +337,7 @@ def step (st : St) : List String → St × String
       if lv > 60 then (st, "err other") else
       let one (i : Nat) : String :=
         let d := dimsLevel p i
-        s!"{showRat (qLevel s i)}|{showPair (numAiry p i)}|{d.1},{d.2}|{showPair (deltaLevel p i)}|{showPair (zeroLevel p i)}|{propKind i}"
+        s!"{showRat (qLevel s i)}|{showPair (numAiry p i)}|{d.1},{d.2}|{showPair (deltaLevel p i)}|{showPair (zeroLevel p i)}|{propKind i}|{originIndex d.1},{originIndex d.2}"
       let lvls := ";".intercalate ((List.range lv).map one)
       let pads := ";".intercalate ((padLevels p lv).map showPad)
       (st, s!"ok levels={lv} boundary={showBool (levelsBoundary q s)} accepted={showBool (accepted p lv)} lv={lvls} pad={if pads.isEmpty then "-" else pads}")
